@@ -817,6 +817,62 @@ v("C20", "send-with-default", "inprocgrpc/in_process.go",
 		go func() { ch <- m }()
 	case <-ctx.Done():""", "R2", "send-select", "non-blocking send with goroutine fallback")
 
+# ------------------------------------------------------------------ C10
+v("C10", "no-wrapper", "inprocgrpc/in_process.go",
+  "	newCtx := context.Context(noValuesContext{ctx})", "	newCtx := ctx", "R2", "ctx-layers", "caller values visible to the handler; the unit test builds the wrapper itself")
+v("C10", "value-delegates-one-key", "inprocgrpc/in_process.go",
+  """func (ctx noValuesContext) Value(_ interface{}) interface{} {
+	return nil
+}""", """func (ctx noValuesContext) Value(k interface{}) interface{} {
+	if _, ok := k.(string); ok {
+		return nil
+	}
+	return ctx.Context.Value(k)
+}""", "R1", "Value", "only string keys are blocked; gRPC's own typed keys leak")
+v("C10", "wrapper-overrides-deadline", "inprocgrpc/in_process.go",
+  """func (ctx noValuesContext) Value(_ interface{}) interface{} {
+	return nil
+}""", """func (ctx noValuesContext) Value(_ interface{}) interface{} {
+	return nil
+}
+
+func (ctx noValuesContext) Deadline() (time.Time, bool) {
+	return time.Time{}, false
+}""", "R1", "methods", "handler no longer sees the caller's deadline", edits=[
+   {"file": "inprocgrpc/in_process.go", "old": """func (ctx noValuesContext) Value(_ interface{}) interface{} {
+	return nil
+}""", "new": """func (ctx noValuesContext) Value(_ interface{}) interface{} {
+	return nil
+}
+
+func (ctx noValuesContext) Deadline() (time.Time, bool) {
+	return time.Time{}, false
+}"""},
+   {"file": "inprocgrpc/in_process.go", "old": '	"sync"\n', "new": '	"sync"\n	"time"\n'}])
+v("C10", "reattach-caller-value", "inprocgrpc/in_process.go",
+  "	newCtx = peer.NewContext(newCtx, &inprocessPeer)", "	newCtx = peer.NewContext(newCtx, &inprocessPeer)\n	newCtx = metadata.NewOutgoingContext(newCtx, metadata.MD{})", "R2", "ctx-layers", "an unsanctioned value layer above the wrapper")
+v("C10", "md-shared", "inprocgrpc/in_process.go",
+  """	if meta, ok := metadata.FromOutgoingContext(ctx); ok {
+		newCtx = metadata.NewIncomingContext(newCtx, meta)
+	}""", """	if meta, ok := ctx.Value(mdKey{}).(metadata.MD); ok {
+		newCtx = metadata.NewIncomingContext(newCtx, meta)
+	}""", "R3", "incoming-md", "metadata map obtained another way (shared)", edits=[
+   {"file": "inprocgrpc/in_process.go", "old": """	if meta, ok := metadata.FromOutgoingContext(ctx); ok {
+		newCtx = metadata.NewIncomingContext(newCtx, meta)
+	}""", "new": """	if meta, ok := ctx.Value(mdKey{}).(metadata.MD); ok {
+		newCtx = metadata.NewIncomingContext(newCtx, meta)
+	}"""},
+   {"file": "inprocgrpc/in_process.go", "old": "var clientContextKey = ", "new": "type mdKey struct{}\n\nvar clientContextKey = "}])
+v("C10", "md-mutated", "inprocgrpc/in_process.go",
+  """	if meta, ok := metadata.FromOutgoingContext(ctx); ok {
+		newCtx = metadata.NewIncomingContext(newCtx, meta)""", """	if meta, ok := metadata.FromOutgoingContext(ctx); ok {
+		meta["x-inproc"] = []string{"1"}
+		newCtx = metadata.NewIncomingContext(newCtx, meta)""", "R3", "incoming-md", "library writes into the metadata it forwards")
+v("C10", "peer-from-caller", "inprocgrpc/in_process.go",
+  "	newCtx = peer.NewContext(newCtx, &inprocessPeer)", "	if pr, ok := peer.FromContext(ctx); ok {\n		newCtx = peer.NewContext(newCtx, pr)\n	} else {\n		newCtx = peer.NewContext(newCtx, &inprocessPeer)\n	}", "R4", "peer", "the enclosing server's peer leaks into nested in-process calls")
+v("C10", "client-ctx-stores-derived", "inprocgrpc/in_process.go",
+  "	newCtx = context.WithValue(newCtx, &clientContextKey, ctx)", "	newCtx = context.WithValue(newCtx, &clientContextKey, newCtx)", "R2", "stores-client-ctx", "ClientContext returns the server-side context, not the caller's")
+
 
 def main():
     if os.path.isdir(OUT):
